@@ -269,7 +269,7 @@ Theorem jwt_token_ok_iff o c jnow tok :
   exists h cl s e i n,
     split_on "."%char tok = [h; cl; s] /\
     o_jhdr o h = Some (j_alg c) /\ is_hs (j_alg c) = true /\
-    o_jclaims o cl = Some (e, i, n) /\ time_valid jnow e i n /\
+    o_jclaims o cl = Some (e, i, n) /\ time_valid jnow (claim_value e) (claim_value i) (claim_value n) /\
     s = o_jmac o (j_alg c) (j_secret c) (h ++ "." ++ cl).
 Proof.
   unfold jwt_token_ok, jwt_sig_ok, time_valid. cbn [ideal q_jwt_sig_lenient_b64].
@@ -599,4 +599,36 @@ Proof.
   apply (sig_same_tag_same_covered o c r1 r2 now1 now2 p1 p2); try assumption.
   - exact (signed_nonl o (s_lit c) r1 p1 W1 I1 S1).
   - exact (signed_nonl o (s_lit c) r2 p2 W2 I2 S2).
+Qed.
+
+(** * users kept in etcd: a request is judged against the LATEST delivered user set *)
+Lemma etcd_run_app q o alive init pre r post :
+  etcd_run q o alive init (pre ++ EReq r :: post)%list =
+  (etcd_run q o alive init pre ++
+   handle q o (basic_cfg (current_users alive init pre)) r 0 0 ::
+   etcd_run q o alive (current_users alive init pre) post)%list.
+Proof.
+  revert init; induction pre as [|op pre IH]; intro init; [reflexivity|].
+  destruct op as [l|r']; cbn [app etcd_run current_users fold_left].
+  - apply IH.
+  - rewrite IH. reflexivity.
+Qed.
+
+Lemma current_users_last init pre l : current_users true init (pre ++ [EUpdate l])%list = users_of l.
+Proof. unfold current_users. rewrite fold_left_app. reflexivity. Qed.
+
+Lemma users_of_nil : users_of [] = [].
+Proof. reflexivity. Qed.
+
+Theorem basic_latest_users q o alive init pre r post :
+  etcd_run q o alive init (pre ++ EReq r :: post)%list =
+  (etcd_run q o alive init pre ++
+   handle q o (basic_cfg (current_users alive init pre)) r 0 0 ::
+   etcd_run q o alive (current_users alive init pre) post)%list /\
+  (forall l, current_users true init (pre ++ [EUpdate l])%list = users_of l) /\
+  (forall u, basic_ok q o [] u = false).
+Proof.
+  split; [apply etcd_run_app|]. split; [intro l; apply current_users_last|].
+  intro u. unfold basic_ok. destruct (String.prefix _ _); [|reflexivity].
+  destruct (o_b64std o _); [|reflexivity]. destruct (parse_credentials q s) as [[a b]|]; reflexivity.
 Qed.
